@@ -87,6 +87,7 @@ def check_convert(run, pkg):
             if box is not None:
                 collect(box)
             verdicts = []
+            box_wit = None
             for kind_, x in arms:
                 if kind_ == "carried":
                     verdicts.append(False)
@@ -94,13 +95,26 @@ def check_convert(run, pkg):
                     verdicts.append(None)
                 elif x[0] == "call" and isinstance(x[1], str) and x[1].endswith("from_box") and len(x[2]) == 1:
                     verdicts.append(eqv(x[2][0], ("attr", snap, "boxlength")))
+                elif x[0] == "call" and isinstance(x[1], str) and x[1] in ("freud.box.Box", "freud.Box") and not x[2]:
+                    # explicit constructor: each edge keyword takes the box length of its own axis
+                    kws_ = dict(x[3])
+                    v_ = []
+                    for kname, axis in (("Lx", 0), ("Ly", 1), ("Lz", 2)):
+                        if kname in kws_:
+                            got_ = kws_[kname]
+                            okk = eqv(got_, ("sub", ("attr", snap, "boxlength"), C(axis)))
+                            if okk is not True and got_[0] == "sub" and got_[1] == ("attr", snap, "boxlength") and is_const(got_[2]) and got_[2][1] != axis:
+                                okk = False
+                                box_wit = f"{kname} is set to the box length of axis {got_[2][1]}: a rectangular box {{'Lx': 12, 'Ly': 17}} is tessellated as 12 x 12 (cell areas sum to 144, not 204)"
+                            v_.append(okk)
+                    verdicts.append(tri(*v_) if v_ else None)
                 else:
                     verdicts.append(None)
             okb = tri(*verdicts) if verdicts else None
             carried = any(k_ == "carried" for k_, _ in arms) or any(v_ is False for v_ in verdicts)
             run.ob("R-ALG", fq, f"{tag}:box", okb, "the tessellation box of every frame is built from that frame's own box lengths, on every path", show(box)[:90] if box else "?",
                    witness=None if okb else ("a box built for another frame is reused: cells L0, L1, L0 - the third frame keeps the box of the second (areas / volumes no longer sum to the frame's cell)"
-                                             if carried else "box of another frame / wrong lengths"), loc=fi.loc(), sound=True)
+                                             if carried and box_wit is None else (box_wit or "box of another frame / wrong lengths")), loc=fi.loc(), sound=True)
             core = pts
             padded = False
             if core is not None and core[0] == "call" and core[1] == "numpy.hstack" and core[2][0][0] == "tuple" and len(core[2][0][1]) == 2:
@@ -376,8 +390,19 @@ def check_volume_matrix(run, pkg):
                 want = ("un", "-", ("call", ".sum", (("call", ".reshape", (("sub", A, ii), Np, nd), ()),), (("axis", C(0)),)))
                 lxe = [x for x in it.events if x.kind == "loop_exit" and x.data["loop"] == blk[0].loops[0]]
                 oks = tri_lazy(lambda: (True if (okslice) else None), lambda: eqv(e.data["value"], want), lambda: eqv(L.iter, ("call", "builtins.range", (Np,), ())), lambda: (True if (lxe) else None), lambda: (True if (e.seq > lxe[0].seq) else None), lambda: (True if (A == blk[0].data["target"][1]) else None))
+            wit_self = "rows do not sum to zero: a rigid translation changes the cell volumes"
+            if oks is not True:
+                # a literal stride / block width where the dimension belongs: right for one dimension only
+                for e_ in stores(it):
+                    if e_.data["target"][1] != pts and any(x[0] == "slice" and is_const(x[3]) and isinstance(x[3][1], int) and x[3][1] in (2, 3) for x in walk(e_.data["value"])) \
+                            and any(x == nd for x in walk(e_.data["target"][2])):
+                        k_ = [x[3][1] for x in walk(e_.data["value"]) if x[0] == "slice" and is_const(x[3]) and isinstance(x[3][1], int) and x[3][1] in (2, 3)][0]
+                        oks = False
+                        wit_self = (f"the self term sums columns with the literal stride {k_} while the blocks are ndim wide: for ndim = {5 - k_} the sum runs over the wrong columns "
+                                    f"and the rows no longer sum to zero")
+                        break
             run.ob("R-ALG", fq, "self-block", oks, "after all off-diagonal blocks are filled, block (i, i) = - sum over particles of row i's blocks (the row then sums to zero per displaced coordinate)", key_of(selfb[0])[:100] if selfb else "?",
-                   witness=None if oks else "rows do not sum to zero: a rigid translation changes the cell volumes", loc=fi.loc(), sound=True)
+                   witness=None if oks else wit_self, loc=fi.loc(), sound=True)
             nrm = [e for e in it.events if e.kind == "aug" and e.data["op"] == "/" and not e.loops]
             orig = [e.data["value"] for e in it.events if e.kind == "assign" and e.data["name"] == "original"]
             okn = True if (len(nrm) == 1 and orig and col_bcast(nrm[0].data["value"]) == orig[0] and nrm[0].data["value"] != orig[0] and selfb and nrm[0].seq > selfb[0].seq) else None
